@@ -20,7 +20,8 @@ prop("C05", "exploration",
       "well-formed entry = optional surrounding white space + 'hop-dh-v1-' + padded standard base64 of exactly 32 bytes, one per "
       "line (DHPublicKey.String / ParseDHPublicKey / ParseAuthorizedKeys doc comments)",
       "home directories are /home/<user>; unreadable = directory in place of the file (fstest.MapFS has no permission bits)"],
-     [dict(name="model", pkg="hopserver", run="^TestVerifC05Login$", shards=dict(quick=8, thorough=16), thorough_scale=100)],
+     [dict(name="model", pkg="hopserver", run="^TestVerifC05Login$", shards=dict(quick=8, thorough=16), thorough_scale=100),
+      dict(name="e2e", pkg="hopserver", run="^TestVerifC07EndToEnd$", shards=dict(quick=16, thorough=16), thorough_scale=20, timeout=dict(quick=900, thorough=3600))],
      text="Model-based search: generated histories of authorized_keys edits, grant additions, authgrant switches and logins run on a "
           "real HopServer (in-memory file system, stubbed passwd lookup) and on a reference model written from the statement; every "
           "login decision is compared with 'listed or live grant'. Absence is not shown; layer 1 does not run the transport or the "
